@@ -465,7 +465,10 @@ impl<'input> Tokenizer<'input> {
                     continue;
                 } else if c == 'r' {
                     self.bump();
-                    if let Some((idx, '#')) = self.lookahead {
+                    // A raw string `r"..."` / `r#"..."#` has no escapes and ends at a quote
+                    // followed by as many hashes as it started with; `idx` is the offset of
+                    // the `r`, which is what `regex_literal` counts the hashes from.
+                    if let Some((_, '#')) | Some((_, '"')) = self.lookahead {
                         self.regex_literal(idx)?;
                     }
                     continue;
